@@ -1,15 +1,327 @@
 import JominiModel.Model.TextReader
+import JominiModel.Spec.TextReader
+import JominiModel.Proofs.SwarReader
+import JominiModel.Proofs.TextReader
+import JominiModel.Proofs.TextReaderStream
+import JominiModel.Proofs.TextReaderFast
+import JominiModel.Proofs.TextFault
 import JominiModel.Generated.Tables
 /-
 C07 — the streaming text reader is independent of read chunking and buffer size.
-Only property theorems live here; helper lemmas are in `Proofs/TextReader*.lean`, `Proofs/SwarReader.lean`.
+Only property theorems live here; helper lemmas are in `Proofs/TextReader*.lean` and
+`Proofs/SwarReader.lean` (the only file with `bv_decide`).
+
+Proved here (about the model `Model/TextReader.lean`):
+* the SWAR word functions meet their byte-level specifications (all 2^64 words);
+* the measured boundary / blank tables are the ones the model uses;
+* resume lemmas: resuming at the recorded offset after a refill is the scan of the extended
+  body from its start (first scan, re-scan, second and later refills, unquoted);
+* no token is split: a token decided inside a window is the token of every extension;
+* one call of `next_opt_fallback` under EVERY fault-free schedule and EVERY buffer capacity either ends in
+  `BufferFull` or returns what the byte-at-a-time reference step over the whole remaining input returns;
+* the fast path of `next_opt` returns the token the fallback scan decides (up to the one skipped space);
+* whole stream (`C07_stream_eq_slice`, `C07_fallback_schedule_independent`, `C07_overflow_is_error`): for every
+  fault-free schedule and every capacity ≥ 1 the streamed run either equals the from-slice run (tokens, terminal
+  outcome, final position = |data| at a clean end) or ends in the error `BufferFull` after a PREFIX of the from-slice
+  tokens; for cap > |data| it always equals it.
+
+Not proved (decided by the correspondence run + implementation oracle only), statement kept at the end:
+* `C07_full_only_if_unfit`: `BufferFull` occurs only when some token / comment / look-ahead does not fit.
 -/
 namespace Jomini.Props.C07
-open Jomini Jomini.TextReader
+open Jomini Jomini.TextReader Jomini.TextReader.Spec Jomini.TextReader.Swar
+
+/-! ### measured tables -/
 
 /-- the model's boundary table is the one measured from the compiled `data::is_boundary`. -/
 theorem C07_boundary_table :
     (List.range 256).map (fun n => isBoundary (UInt8.ofNat n)) = Jomini.Tables.textBoundary := by
   decide +kernel
+
+/-- the bytes the model's `next_opt_fallback` skips between tokens are the ones measured on the compiled reader
+(`[b] ++ "a"` lexes to exactly `a`). -/
+theorem C07_blank_table :
+    (List.range 256).map (fun n => isBlank (UInt8.ofNat n)) = Jomini.Tables.textReaderBlank := by
+  decide +kernel
+
+/-! ### SWAR -/
+
+/-- `leading_whitespace` on a little-endian word returns the number of leading bytes that are `\t` or `\n`. -/
+theorem C07_leadingWhitespace_spec (b0 b1 b2 b3 b4 b5 b6 b7 : UInt8) :
+    leadingWhitespace (le64 b0 b1 b2 b3 b4 b5 b6 b7) =
+      ([b0, b1, b2, b3, b4, b5, b6, b7].takeWhile (fun b => b == 9 || b == 10)).length :=
+  leadingWhitespace_spec b0 b1 b2 b3 b4 b5 b6 b7
+
+example : leadingWhitespace (le64 9 10 9 32 9 9 9 9) = 3 := by decide
+
+/-- the quote finder of `next_opt`: `t2 != 0` iff one of the eight bytes is `"`, and
+`t2.trailing_zeros() >> 3` is the index of the first one (8 if none). -/
+theorem C07_quoteFinder_spec (b0 b1 b2 b3 b4 b5 b6 b7 : UInt8) :
+    (quoteMask (le64 b0 b1 b2 b3 b4 b5 b6 b7) != 0#64) = [b0, b1, b2, b3, b4, b5, b6, b7].any (· == 34) ∧
+    trailingZeros (quoteMask (le64 b0 b1 b2 b3 b4 b5 b6 b7)) >>> 3 =
+      ([b0, b1, b2, b3, b4, b5, b6, b7].takeWhile (fun b => !(b == 34))).length :=
+  quoteFinder_spec b0 b1 b2 b3 b4 b5 b6 b7
+
+example : trailingZeros (quoteMask (le64 97 98 34 99 34 0 0 0)) >>> 3 = 2 := by decide
+
+/-- `contains_zero_byte` is true iff one of the eight bytes is zero. -/
+theorem C07_containsZeroByte_spec (b0 b1 b2 b3 b4 b5 b6 b7 : UInt8) :
+    containsZeroByte (le64 b0 b1 b2 b3 b4 b5 b6 b7) = [b0, b1, b2, b3, b4, b5, b6, b7].any (· == 0) :=
+  containsZeroByte_spec b0 b1 b2 b3 b4 b5 b6 b7
+
+/-- the form in which the reader uses it: `contains_zero_byte(data ^ repeat_byte(c))` iff some byte equals `c`. -/
+theorem C07_containsByte_spec (b0 b1 b2 b3 b4 b5 b6 b7 c : UInt8) :
+    containsZeroByte (le64 b0 b1 b2 b3 b4 b5 b6 b7 ^^^ repeatByte c) =
+      [b0, b1, b2, b3, b4, b5, b6, b7].any (· == c) :=
+  containsByte_spec b0 b1 b2 b3 b4 b5 b6 b7 c
+
+/-! ### resume lemmas (`TextReader_resume_*` of the design) -/
+
+/-- **resume inside a quoted scalar, first refill**: if the first scan of the body `w` (the bytes after the
+opening quote that are in the window) ran out of window and recorded `(carry, off)`, then for every continuation
+`b` the re-scan of `next_opt_refill`'s `Quote` arm, started at `off` on the extended body, finds the closing quote
+at `n` iff the scan of the extended body from its start does.  (No byte is skipped, none is read in a different
+escape state: a trailing backslash makes the scan resume AT the backslash.) -/
+theorem C07_resume_quote {w : Bytes} {carry off : Nat} (b : Bytes) (n : Nat)
+    (h : quoteScan w 0 = .more carry off) :
+    quoteRescan (w ++ b).length ((w ++ b).drop off) off = .closed n ↔ quoteScan (w ++ b) 0 = .closed n :=
+  resume_quote b n h
+
+-- the hypothesis is satisfiable, non-trivially: body `a\"\` (escaped quote, then a backslash as last byte)
+example : quoteScan [97, 92, 34, 92] 0 = .more 4 3 := by decide
+example : quoteRescan 6 ((([97, 92, 34, 92] : Bytes) ++ [34, 34]).drop 3) 3 = .closed 5 := by decide
+
+/-- **second and later refills of one string** (the offset recorded by the re-scan itself). -/
+theorem C07_resume_quote_again {w : Bytes} {i carry off : Nat} (b : Bytes) (n : Nat)
+    (h : quoteRescan (i + w.length) w i = .more carry off) :
+    quoteRescan (i + (w ++ b).length) ((w ++ b).drop (off - i)) off = .closed n ↔
+      quoteRescan (i + (w ++ b).length) (w ++ b) i = .closed n :=
+  resume_quote_again b n h
+
+example : quoteRescan (0 + 3) [97, 98, 92] 0 = .more 3 2 := by decide
+
+/-- both scans carry the whole body over, and the offset they record lies inside it. -/
+theorem C07_resume_quote_carry {w : Bytes} {carry off : Nat} (h : quoteScan w 0 = .more carry off) :
+    carry = w.length ∧ off ≤ carry ∧ quoteEnd w 0 = none := by
+  obtain ⟨h1, h2, _, h4, _⟩ := quoteScan_more h
+  exact ⟨by simpa using h2, h4, h1⟩
+
+/-- **resume inside an unquoted scalar**: the first scan found no boundary in `a`; resuming at
+`offset = carry_over = |a|` on the extended window is the scan of the extended window from its start. -/
+theorem C07_resume_unquoted {a : Bytes} {i : Nat} (b : Bytes) (h : findIdx isBoundary a i = none) :
+    findIdx isBoundary (a ++ b) i = findIdx isBoundary ((a ++ b).drop a.length) (i + a.length) :=
+  resume_unquoted b h
+
+example : findIdx isBoundary [97, 98] 0 = none := by decide
+
+/-- **comments and other `None`-state carries are re-scanned from their first byte**: if the scan passes over
+all of `pre` (blanks, complete comments, a BOM at the very start), the scan of `pre ++ x` is the scan of `x`
+at offset `|pre|` — so dropping `pre` and re-scanning the carried bytes loses nothing. -/
+theorem C07_resume_comment {pos0 : Bool} {pre : Bytes} {i : Nat} {bom bom' : Bom}
+    (h : Skips pos0 pre i bom bom') (x : Bytes) :
+    fbLoop pos0 (pre ++ x) .top i bom = fbLoop pos0 x .top (i + pre.length) bom' :=
+  h.fbLoop x
+
+example : Skips false [32, 35, 97, 10, 9] 0 .unknown .unknown :=
+  .blank (by decide) (.comment (a := [97]) (by decide) (.blank (by decide) (.nil _ _)))
+
+/-! ### no token is split -/
+
+/-- a token that the scan of a window decides is the token the scan of every extension of that window decides:
+same bytes, same advance, same BOM state.  (A refill can therefore never turn one token into two.) -/
+theorem C07_no_token_split {pos0 : Bool} {w : Bytes} {bom bom' : Bom} {adv : Nat} {t : Token} (b : Bytes)
+    (h : fbLoop pos0 w .top 0 bom = (bom', .tok adv t)) :
+    fbLoop pos0 (w ++ b) .top 0 bom = (bom', .tok adv t) :=
+  fbLoop_stable b h
+
+example : fbLoop true [32, 97, 98, 61] .top 0 .unknown = (.unknown, .tok 3 (.unquoted [97, 98])) := by decide
+
+/-! ### schedule independence of the fallback path -/
+
+/-- **one call, every schedule, every buffer capacity.**  Let the reader be at stream position `pos` with BOM state
+`bom`, let `d` be its window followed by the bytes the `Read` has not delivered yet (`Rel`), the schedule fault-free.
+Then `next_opt_fallback` either ends in `BufferFull` — and then the window really filled the non-empty buffer — or it
+returns exactly what the byte-at-a-time reference step over the whole of `d` prescribes: the same token, the same clean
+end, the same `Eof` and error position, however the window currently splits `d` and however the remaining bytes arrive;
+and it leaves the reader related to the rest.  It never reports a clean end, never returns a different or a shorter
+token. -/
+theorem C07_fallback_call_eq_spec (r : Reader) (pos : Nat) (bom : Bom) (d : Bytes) (fuel : Nat)
+    (hrel : Rel r pos bom d) (hfuel : 2 * r.src.rest.length + 4 ≤ fuel) :
+    Out (nextOptFallback fuel r) r.cap pos bom d :=
+  run_fallback_spec _ r pos bom d fuel rfl hrel hfuel
+
+/-- the reference step is total: it always prescribes a token, a clean end, or `Eof`. -/
+theorem C07_spec_total (pos0 : Bool) (bom : Bom) (d : Bytes) : (specStep pos0 bom d).isSome = true :=
+  specStep_isSome pos0 bom d
+
+/-- the start states are related to the whole input -/
+theorem C07_start_related (cap : Nat) (sched : List Step) (data : Bytes) (hcap : 0 < cap) (hw : WfSched sched) :
+    Rel (fromReader cap sched data) 0 .unknown data ∧ Rel (fromSlice data) 0 .unknown data := by
+  constructor
+  · exact ⟨rfl, rfl, by simp [fromReader], hw, by intro h; simp [fromReader] at h; omega⟩
+  · exact ⟨rfl, rfl, by simp [fromSlice], by intro x hx; simp [fromSlice] at hx, fun _ => rfl⟩
+
+/-- **C07 with the fast path out of play, every capacity.**  For every input, every fault-free read schedule (any
+sizes ≥ 1, `repeat`, unlimited; fault steps are allowed and then show up as the I/O-error alternative) and every buffer
+capacity ≥ 1: either the streamed run stops with `BufferFull` (then the capacity is at most the input length) or an I/O
+error, having produced a prefix of the from-slice token sequence, or the streamed token
+sequence equals the from-slice token sequence, the terminal outcome is the same, and at a clean end the final position
+of both readers is the input length. -/
+theorem C07_fallback_schedule_independent (data : Bytes) (cap : Nat) (sched : List Step)
+    (hcap : 0 < cap) (hw : WfSched sched) :
+    let s := lexFb (fuelFor data + 2 * sched.length) (fuelFor data) (fromReader cap sched data) []
+    let l := lexFb (fuelFor data) (fuelFor data) (fromSlice data) []
+    (StopErr s.out ∧ s.toks <+: l.toks ∧ (s.out = .err .full → cap ≤ data.length)) ∨
+    (s.toks = l.toks ∧ s.out = l.out ∧
+      (s.out = .end_ → s.final.position = data.length ∧ l.final.position = data.length)) := by
+  intro s l
+  obtain ⟨h1, h2⟩ := C07_start_related cap sched data hcap hw
+  have := lexFb_vs_slice (fuelFor data) _ _ 0 .unknown data (fuelFor data + 2 * sched.length) (fuelFor data) [] h1 h2 rfl
+    (by simp [fuelFor]; omega) (by simp [fuelFor])
+  rcases this with ⟨a, b, c⟩ | this
+  · left; exact ⟨a, b, c⟩
+  · right; simpa using this
+
+-- the hypotheses are satisfiable: a 1-byte-at-a-time schedule followed by unlimited reads, buffer of 64 bytes
+example : WfSched [.give 1, .give 1, .give 3, .repeat_ 2] ∧ NoFaults [.give 1, .give 1, .give 3, .repeat_ 2] := by
+  constructor
+  · intro x hx; simp at hx; rcases hx with rfl | rfl | rfl | rfl <;> simp [WfStep]
+  · intro x hx; simp at hx; rcases hx with rfl | rfl | rfl | rfl <;> simp
+example : (lexFb 100 40 (fromReader 64 [.give 1, .give 1, .give 3, .repeat_ 2]
+    [97, 61, 34, 98, 92, 34, 34, 32, 35, 99]) []).toks = [.unquoted [97], .op .eq, .quoted [98, 92, 34]] := by
+  decide +kernel
+-- and the `BufferFull` branch is real: a 4-byte buffer cannot hold `abcdef`
+example : (lexFb 100 40 (fromReader 4 [] [97, 98, 99, 100, 101, 102, 32]) []).out = .err .full := by decide +kernel
+
+/-! ### the fast path -/
+
+/-- **`next_opt`'s fast path is unobservable up to one skipped space.**  For every reader state either `next_opt`
+defers to `next_opt_fallback`, or both return the same token and leave the same reader — except that after a
+fast-path unquoted scalar followed by a space the fast path has consumed that one space as well (position + 1; the
+next token is the same, see `C07_stream_eq_slice_partial`).  In particular no 8-byte read of the fast path leaves the
+window (`ub` is impossible) and no `advance_to` assertion fires. -/
+theorem C07_fast_eq_fallback (fuel : Nat) (r : Reader) (hf : 1 ≤ fuel) :
+    nextOpt fuel r = nextOptFallback fuel r ∨
+    ∃ t r1 r2, nextOpt fuel r = .ok r1 (some t) ∧ nextOptFallback fuel r = .ok r2 (some t) ∧
+      (r1 = r2 ∨ (r2.win = 32 :: r1.win ∧ r1.consumed = r2.consumed + 1 ∧ r1.prior = r2.prior ∧
+        r1.src = r2.src ∧ r1.bom = r2.bom ∧ r1.cap = r2.cap)) := by
+  rcases nextOpt_vs_scan fuel r with h | ⟨adv, t, r1, hscan, hres, hadv⟩
+  · left; exact h
+  · right
+    obtain ⟨f, rfl⟩ : ∃ f, fuel = f + 1 := ⟨fuel - 1, by omega⟩
+    have hfb : nextOptFallback (f + 1) r =
+        match advance r adv with
+        | some r' => .ok r' (some t)
+        | none => .panic := by
+      unfold nextOptFallback
+      rw [run_fallback_unfold, hscan]
+      rfl
+    rcases hadv with ha | ⟨h32, ha⟩
+    · exact ⟨t, r1, r1, hres, by rw [hfb, ha], Or.inl rfl⟩
+    · have hk : adv + 1 ≤ r.win.length := by
+        unfold TextReader.advance at ha; split at ha
+        · assumption
+        · simp at ha
+      have ha2 : advance r adv = some { r with win := r.win.drop adv, consumed := r.consumed + adv } := by
+        simp [TextReader.advance]; omega
+      have hr1 : r1 = { r with win := r.win.drop (adv + 1), consumed := r.consumed + (adv + 1) } := by
+        simp only [TextReader.advance, hk, if_true, Option.some.injEq] at ha; exact ha.symm
+      refine ⟨t, r1, _, hres, by rw [hfb, ha2], Or.inr ?_⟩
+      subst hr1
+      refine ⟨?_, by simp; omega, rfl, rfl, rfl, rfl⟩
+      simp only
+      rw [drop_of_getElem? h32]
+
+-- the quirk is real: `ab cdefghijk…` on the fast path consumes 3 bytes, on the fallback path 2
+example : (match nextOpt 5 (fromSlice [97, 98, 32, 99, 100, 101, 102, 103, 104, 105, 106, 107]) with
+    | .ok r' (some t) => (t, r'.consumed) | _ => (.open_, 0)) = (.unquoted [97, 98], 3) := by decide +kernel
+example : (match nextOptFallback 5 (fromSlice [97, 98, 32, 99, 100, 101, 102, 103, 104, 105, 106, 107]) with
+    | .ok r' (some t) => (t, r'.consumed) | _ => (.open_, 0)) = (.unquoted [97, 98], 2) := by decide +kernel
+
+/-- **C07, the whole reader (fast path in play), every schedule, every capacity.**  For every input, every fault-free
+read schedule (`WfSched`: read sizes ≥ 1; `NoFaults`) and every buffer capacity ≥ 1, the streaming reader (`streamTokens`: `next` until it stops) either
+
+* ends in `BufferFull` — an error, never a clean end — having produced a PREFIX of the from-slice reader's token
+  sequence (no token dropped, split or altered), and then the capacity is at most the input length; or
+* produces exactly the token sequence of the zero-copy from-slice reader, ends in the same outcome (clean end, or the
+  same error), and at a clean end both final positions equal the input length.
+
+This is the statement of C07 and of its last sentence (`C07_overflow_is_error`) except for the liveness half
+"`BufferFull` occurs only if some token/comment does not fit" (see the end of this file). -/
+theorem C07_stream_eq_slice (data : Bytes) (cap : Nat) (sched : List Step) (hcap : 0 < cap) (hw : WfSched sched)
+    (hnf : NoFaults sched) :
+    ((streamTokens cap sched data).out = .err .full ∧
+      (streamTokens cap sched data).toks <+: (sliceTokens data).toks ∧ cap ≤ data.length) ∨
+    ((streamTokens cap sched data).toks = (sliceTokens data).toks ∧
+     (streamTokens cap sched data).out = (sliceTokens data).out ∧
+     ((streamTokens cap sched data).out = .end_ →
+       (streamTokens cap sched data).final.position = data.length ∧ (sliceTokens data).final.position = data.length)) := by
+  obtain ⟨h1, h2⟩ := C07_start_related cap sched data hcap hw
+  have := lexAll_vs_slice (fuelFor data) _ _ 0 .unknown data (fuelFor data + 2 * sched.length) (fuelFor data) []
+    (Or.inl h1) (Or.inl h2) rfl (by simp [fuelFor]; omega) (by simp [fuelFor])
+  rcases this with ⟨a, b, c⟩ | this
+  · left
+    have hfull : (streamTokens cap sched data).out = .err .full := by
+      rcases a with a | a
+      · exact a
+      · exact absurd a (lexAll_no_io cap sched data _ _ hnf)
+    exact ⟨hfull, b, c hfull⟩
+  · right; simpa [streamTokens, sliceTokens] using this
+
+example : (streamTokens 64 [.give 1, .give 1, .give 3, .repeat_ 2]
+    [97, 61, 34, 98, 92, 34, 34, 32, 35, 99]).toks = [.unquoted [97], .op .eq, .quoted [98, 92, 34]] := by
+  decide +kernel
+
+/-- **`C07_overflow_is_error`, safety half**: whenever the streamed result is not the from-slice result (tokens or
+outcome), the streamed run ended in the error `BufferFull` and its tokens are a prefix of the from-slice tokens — data
+is never silently dropped, split into several tokens, or reported as a clean end of input. -/
+theorem C07_overflow_is_error (data : Bytes) (cap : Nat) (sched : List Step) (hcap : 0 < cap) (hw : WfSched sched)
+    (hnf : NoFaults sched)
+    (hdiff : (streamTokens cap sched data).toks ≠ (sliceTokens data).toks ∨
+             (streamTokens cap sched data).out ≠ (sliceTokens data).out) :
+    (streamTokens cap sched data).out = .err .full ∧
+    (streamTokens cap sched data).toks <+: (sliceTokens data).toks := by
+  rcases C07_stream_eq_slice data cap sched hcap hw hnf with ⟨a, b, _⟩ | ⟨a, b, _⟩
+  · exact ⟨a, b⟩
+  · rcases hdiff with h | h
+    · exact absurd a h
+    · exact absurd b h
+
+-- the hypothesis is satisfiable: `abcdef ` with a 4-byte buffer streams to `err:full`, the slice reader to `abcdef`
+example : (streamTokens 4 [] [97, 98, 99, 100, 101, 102, 32]).out ≠ (sliceTokens [97, 98, 99, 100, 101, 102, 32]).out := by
+  decide +kernel
+
+/-- a buffer larger than the input never overflows: for every schedule the streamed result IS the from-slice result. -/
+theorem C07_stream_eq_slice_large_buffer (data : Bytes) (cap : Nat) (sched : List Step)
+    (hcap : data.length < cap) (hw : WfSched sched) (hnf : NoFaults sched) :
+    (streamTokens cap sched data).toks = (sliceTokens data).toks ∧
+    (streamTokens cap sched data).out = (sliceTokens data).out ∧
+    ((streamTokens cap sched data).out = .end_ →
+      (streamTokens cap sched data).final.position = data.length ∧ (sliceTokens data).final.position = data.length) := by
+  rcases C07_stream_eq_slice data cap sched (by omega) hw hnf with ⟨_, _, c⟩ | h
+  · omega
+  · exact h
+
+/-- two different schedules and two different (large enough) buffer sizes agree with each other. -/
+theorem C07_two_schedules_agree (data : Bytes) (cap1 cap2 : Nat) (sched1 sched2 : List Step)
+    (h1 : data.length < cap1) (h2 : data.length < cap2) (hw1 : WfSched sched1) (hw2 : WfSched sched2)
+    (hn1 : NoFaults sched1) (hn2 : NoFaults sched2) :
+    (streamTokens cap1 sched1 data).toks = (streamTokens cap2 sched2 data).toks ∧
+    (streamTokens cap1 sched1 data).out = (streamTokens cap2 sched2 data).out := by
+  have a := C07_stream_eq_slice_large_buffer data cap1 sched1 h1 hw1 hn1
+  have b := C07_stream_eq_slice_large_buffer data cap2 sched2 h2 hw2 hn2
+  exact ⟨a.1.trans b.1.symm, a.2.1.trans b.2.1.symm⟩
+
+/-
+Not proved; statement kept as the obligation (exercised on the real code by the L3 oracle `full-although-fits` of
+harness/src/props/c07.rs, which computes `need` with an independent byte-at-a-time lexer):
+
+theorem C07_full_only_if_unfit (data cap sched) (hfit : need data ≤ cap) (hw : WfSched sched) (hnf : NoFaults sched) :
+    (streamTokens cap sched data).out ≠ .err .full
+  -- `need data` = the largest of: comment length + 1, unquoted length + 1, quoted content length + 1, `@[..]` length,
+  -- 2 for an operator, min (|data| + 1) 3 if the input starts with 0xEF.
+  -- With it, C07_stream_eq_slice gives the equality for every capacity that fits; today it is proved for cap > |data|
+  -- (`C07_stream_eq_slice_large_buffer`), and for every other capacity in the disjunctive form of `C07_stream_eq_slice`.
+-/
 
 end Jomini.Props.C07
